@@ -44,6 +44,8 @@ def install_rdms(E):
         E.methods[('RDMs', nm)] = rd_method(nm, sm)
     E.method_ret[('RDMs', 'copy')] = 'RDMs'
     E.method_ret[(None, 'predict_rdm')] = 'RDMs'
+    E.func_ret['rsatoolbox.util.inference_util.pool_rdm'] = 'RDMs'
+    E.func_ret['rsatoolbox.util.pooling.pool_rdm'] = 'RDMs'
 
 
 INLINE = {
